@@ -32,6 +32,7 @@ import (
 
 	"github.com/mycoria/mycoria"
 	"github.com/mycoria/mycoria/config"
+	"github.com/mycoria/mycoria/m"
 
 	"verif/core"
 	"verif/ids"
@@ -273,8 +274,20 @@ func c20FreePort() int {
 
 func TestC20(t *testing.T) {
 	pool := ids.Routable()
+	// Geo-marked addresses whose country bits match no entry of the country table
+	// (valid identities; the router falls back to the region prefix for them).
+	var noCountry []int
+	for i, id := range pool {
+		if _, err := m.LookupCountryMarker(id.Addr.IP); err != nil && m.GetAddressType(id.Addr.IP) == m.TypeGeoMarked {
+			noCountry = append(noCountry, i)
+		}
+	}
 	core.Run(t, c20Opts, func(c *core.Case) {
 		ia := c.Pick("idA", len(pool))
+		if len(noCountry) > 0 && c.Chance("idA.no-country-entry", 1, 4) {
+			ia = noCountry[c.Pick("idA.nc", len(noCountry))]
+			c.Class("identity-geo-marked-without-country-entry")
+		}
 		ib := c.Pick("idB", len(pool)-1)
 		if ib >= ia {
 			ib++
